@@ -40,7 +40,8 @@ Proof. destruct depth; reflexivity. Qed.
 Lemma macro_expand_segs line name ops st st0 segments :
   macro_expand fuel inc macroses line name ops st = Ok (st0, segments) -> segs st0 = segs st.
 Proof.
-  unfold macro_expand. destruct (lookup name macroses); [|discriminate]. intros H.
+  unfold macro_expand. destruct (lookup name macroses); [|discriminate]. intros H. cbv zeta in H.
+  destruct (too_long _); [discriminate|].
   apply bind_ok in H. destruct H as (r & _ & H). injection H as <- _. reflexivity.
 Qed.
 
